@@ -120,6 +120,15 @@ fn arith_leaves<'a>() -> Vec<Term<'a>> {
     v.push(mk::big(-two64));
     v.push(mk::big(ten40.clone()));
     v.push(mk::big(-ten40));
+    // machine-word boundaries (an implementation that takes a native fast path must fall back exactly here)
+    let two63: BigInt = BigInt::from(1u8) << 63;
+    let two31: BigInt = BigInt::from(1u8) << 31;
+    v.push(mk::big(two63.clone()));
+    v.push(mk::big(-two63.clone()));
+    v.push(mk::big(two63.clone() - 1));
+    v.push(mk::big(-two63 - 1));
+    v.push(mk::big(two31.clone()));
+    v.push(mk::big(-two31));
     v.push(mk::tt());
     v.push(mk::ff());
     v
